@@ -8,7 +8,7 @@ import pandas as pd
 
 TZ = "America/Chicago"
 TZ_OTHER = "America/New_York"
-OBS_VARIANTS = ["orig", "x3", "shuffled", "partnan", "allnan", "absent"]
+OBS_VARIANTS = ["orig", "x3", "shuffled", "partnan", "partzero", "allnan", "absent"]
 
 
 def _rng(tag):
@@ -92,6 +92,11 @@ def _apply_obs(obs, variant, tag):
     if variant == "partnan":
         out = obs.copy()
         out[partnan_mask(len(out))] = np.nan
+        return out
+    if variant == "partzero":          # an outage recorded as zero readings
+        out = obs.copy()
+        pos = np.arange(len(out))
+        out[(pos * 7919 % 10) == 5] = 0.0
         return out
     if variant == "allnan":
         return np.full(len(obs), np.nan)
